@@ -214,6 +214,10 @@ func (BridgeEngine) GenConfig(rng *rand.Rand, prop string, tier string) RunConfi
 	case "C01":
 		rc.Weights["rebond-cycle"] = 3
 	case "C02":
+		rc.Weights["rejoin"] = rc.Weights["rejoin"]*3 + 3
+		rc.Weights["actor"] = rc.Weights["actor"]*2 + 2
+		rc.Weights["adv"] *= 2
+		rc.Faults = appendUniq(rc.Faults, "crash-confirms")
 		rc.Weights["rebond-cycle"] = 3
 		rc.Weights["churn"] *= 2
 		rc.Knobs["boundary-stakes"] = "1"
